@@ -13,8 +13,9 @@ HINTS = {
     "5": "Triggers that earlier rounds under-used and that you should prefer now: degenerate but legal inputs (zero rows, one row, one plate, one sample, a single posterior sample, an empty batch, an empty selection, n_chunks = 1 or far more chunks than items); ties and ordering (equal scores, equal sizes, equal names up to case or whitespace, already sorted versus reverse sorted input); numerical edges (exact 0 / 1 / bounds, subnormal and huge values, float32 versus float64 round trips, integer overflow of an index or a product); error paths (something the statement says must be REFUSED is now accepted, or the other way round); an option of a command line entry point that no earlier seed used; a library call sequence a downstream user would plausibly write (construct, mutate through a documented setter, call again); a clause of the statement that the earlier seeds did not touch at all.",
     "6": "Triggers that earlier rounds under-used and that you should prefer now: the file system and process environment of a command line entry point (an output file that already exists, a relative path or another working directory, input files given twice or in another order, an option's default versus the same value given explicitly); copies of objects (copy.copy / copy.deepcopy / pickle of a screen, a view, a model, a posterior sample, a holder) used in place of the original; integer and float types at an interface (int32 versus int64 ids, numpy scalars versus python numbers, 0-d arrays, negative zero, bool masks given as 0/1 integers); iteration order of dicts and sets; a threshold well above what a unit test would try (hundreds of plates, thousands of rows, 256 / 65536 boundaries) where a 'bounded memory' or 'compact dtype' rewrite changes behaviour; clauses of the statement about what must be REFUSED; a clause of the statement that the earlier seeds did not touch at all.",
     "7": "Triggers that earlier rounds under-used and that you should prefer now: arrays RETURNED to the caller that alias internal state (the caller edits what it was given and a later call is wrong), or arguments kept by reference and edited by the caller afterwards; screens of arity 1 or arity 3 where the earlier seeds used pairs; a default parameter value or keyword that silently changes meaning; an exception that is swallowed (bare except, fallback branch) so that something which must be refused is quietly 'repaired'; three public operations in a row where any two are fine; behaviour that differs between the library call and the command line entry point for the same request; a clause of the statement that the earlier seeds did not touch at all. Avoid pure size thresholds (256 / 4096 / 65536 boundaries) and pre-existing output files: the previous round used those heavily.",
+    "8": "Triggers that earlier rounds under-used and that you should prefer now: a COMBINATION of two input features that are each common but rarely occur together (a control in the first column and a duplicated condition; an observed plate and a one-well plate; a batch and a chunk count that does not divide the candidates; the last sample in sort order and an empty plate; doses that differ only in sign or in the 7th digit); helpers that the anchored code calls (the casting of command line parameters to their annotated types in batchie.introspection, batchie.common, log configuration, the h5 helper functions) rather than the anchored functions themselves; the first or the last element of a loop treated differently; a comparison that changes from strict to non-strict (or the other way) where ties are possible; a clause of the statement that the earlier seeds did not touch at all. Avoid what the previous rounds used heavily: module-level or per-object caches, thresholds at 256 / 4096 / 65536, pre-existing output files, arrays aliased with the caller, mutable default arguments.",
 }
-HINT = HINTS.get(rnd, HINTS["7"])
+HINT = HINTS.get(rnd, HINTS["8"])
 only = set(sys.argv[3:])
 props = [json.loads(l) for l in open("/verif/properties.jsonl")]
 os.makedirs(outdir, exist_ok=True)
